@@ -116,6 +116,7 @@ theorem read3_spec {t : Tag} (hT : TagBytes t) (bl : List Nat) (s : S3) (hI : I3
 theorem blockLoop3_spec {t : Tag} (hT : TagBytes t) (last nbr : Nat) (hl : last ≤ 65536) (h1 : 1 ≤ nbr) (h15 : nbr ≤ 15) :
     ∀ (fuel i : Nat) (acc : List Bytes) (s : S3), I3 s → last < i + fuel → 0 < fuel →
       (blockLoop3 t last nbr fuel i acc s).2.w.n ≤ s.w.n + 3 * (last - i) ∧
+      I3 (blockLoop3 t last nbr fuel i acc s).2 ∧ (blockLoop3 t last nbr fuel i acc s).2.sys = s.sys ∧
       ((blockLoop3 t last nbr fuel i acc s).1 = .ok none ∨ ∃ d, (blockLoop3 t last nbr fuel i acc s).1 = .ok (some d)) := by
   intro fuel
   induction fuel with
@@ -124,7 +125,7 @@ theorem blockLoop3_spec {t : Tag} (hT : TagBytes t) (last nbr : Nat) (hl : last 
     intro i acc s hI hf _
     unfold blockLoop3
     split
-    · exact ⟨by simp, Or.inr ⟨_, rfl⟩⟩
+    · exact ⟨by simp, hI, rfl, Or.inr ⟨_, rfl⟩⟩
     · rename_i hlt
       have hr := read3_spec hT (List.range' i (min (i + nbr) last - i)) s hI (by simp; omega)
         (by intro b hb; simp only [List.mem_range'_1] at hb; omega)
@@ -134,39 +135,103 @@ theorem blockLoop3_spec {t : Tag} (hT : TagBytes t) (last nbr : Nat) (hl : last 
       cases r with
       | error e =>
         simp only [hr.2.2.2.1 e rfl, if_true]
-        exact ⟨by omega, by simp⟩
+        exact ⟨by omega, hr.2.1, hr.2.2.1, by simp⟩
       | ok d =>
         simp only
         have := ih (i + nbr) (d :: acc) s' hr.2.1 (by omega) (by omega)
-        exact ⟨by omega, this.2⟩
+        exact ⟨by omega, this.2.1, by rw [this.2.2.1]; exact hr.2.2.1, this.2.2.2⟩
+
+/-- `polling(system_code, request_code)`: at most 3 interactions, only command errors, and the tuple has the
+shape that belongs to the request code: `(idm, pmm)` of 8 octets each for request code 0 -/
+theorem pollingTuple_spec {t : Tag} (hT : TagBytes t) (sys rc : Nat) (s : S3) (hs : sys < 65536)
+    (hrc : rc = 0 ∨ rc = 1 ∨ rc = 2) :
+    (pollingTuple t sys rc s).2.w.n ≤ s.w.n + 3 ∧
+    (pollingTuple t sys rc s).2.idm = s.idm ∧ (pollingTuple t sys rc s).2.pmm = s.pmm ∧
+    (pollingTuple t sys rc s).2.sys = s.sys ∧
+    (∀ e, (pollingTuple t sys rc s).1 = .error e → isTagCmd e = true) ∧
+    (∀ tup, (pollingTuple t sys rc s).1 = .ok tup →
+      (rc = 0 → ∃ a b, tup = [a, b] ∧ a.length = 8 ∧ b.length = 8) ∧
+      (rc ≠ 0 → ∃ a b c, tup = [a, b, c])) := by
+  unfold pollingTuple
+  rw [if_neg (by omega), if_neg (by omega)]
+  have hc := sendCmd3_spec hT 0 [sys / 256, sys % 256, rc, 0] false s (by simp) (by omega)
+  rcases hr : sendCmd3 t 0 [sys / 256, sys % 256, rc, 0] false s with ⟨r, s'⟩
+  rw [hr] at hc
+  simp only at hc
+  obtain ⟨h1, h2, h3, h4, h5, -⟩ := hc
+  cases r with
+  | error e => exact ⟨h1, h2, h3, h4, by intro e' he; simp at he; subst he; exact h5 e rfl, by simp⟩
+  | ok d =>
+    simp only
+    by_cases hl : d.length ≠ (if rc = 0 then 16 else 18)
+    · rw [if_pos hl]
+      exact ⟨h1, h2, h3, h4, by intro e' he; simp at he; subst he; rfl, by simp⟩
+    · rw [if_neg hl]
+      have hl' : d.length = (if rc = 0 then 16 else 18) := by simpa using hl
+      by_cases h16 : d.length = 16
+      · rw [if_pos h16]
+        refine ⟨h1, h2, h3, h4, by simp, ?_⟩
+        intro tup htup
+        simp at htup
+        subst htup
+        refine ⟨fun _ => ⟨_, _, rfl, by simp; omega, by simp; omega⟩, ?_⟩
+        intro hne
+        rw [if_neg hne] at hl'
+        omega
+      · rw [if_neg h16]
+        refine ⟨h1, h2, h3, h4, by simp, ?_⟩
+        intro tup htup
+        simp at htup
+        subst htup
+        refine ⟨?_, fun _ => ⟨_, _, _, rfl⟩⟩
+        intro h0
+        rw [if_pos h0] at hl'
+        omega
+
+theorem polling3_spec {t : Tag} (hT : TagBytes t) (s : S3) :
+    (polling3 t s).2.w.n ≤ s.w.n + 3 ∧ (∀ e, (polling3 t s).1 = .error e → isTagCmd e = true) ∧
+    ((polling3 t s).1 = .ok () → I3 (polling3 t s).2) ∧
+    ((polling3 t s).1 ≠ .ok () → (polling3 t s).2.idm = s.idm ∧ (polling3 t s).2.pmm = s.pmm ∧ (polling3 t s).2.sys = s.sys) ∧
+    ((polling3 t s).1 = .ok () → (polling3 t s).2.sys = 0x12FC) := by
+  unfold polling3
+  have hp := pollingTuple_spec hT 0x12FC 0 s (by omega) (Or.inl rfl)
+  rcases hr : pollingTuple t 0x12FC 0 s with ⟨r, s'⟩
+  rw [hr] at hp
+  simp only at hp
+  cases r with
+  | error e =>
+    exact ⟨hp.1, by intro e' he; simp at he; subst he; exact hp.2.2.2.2.1 e rfl, by simp,
+      fun _ => ⟨hp.2.1, hp.2.2.1, hp.2.2.2.1⟩, by simp⟩
+  | ok tup =>
+    obtain ⟨a, b, hab, ha, hb⟩ := (hp.2.2.2.2.2 tup rfl).1 trivial
+    subst hab
+    simp only [unpack2]
+    exact ⟨hp.1, by simp, fun _ => ⟨ha, hb⟩, by simp, by simp⟩
 
 /-- Type 3: for every tag `_read_ndef_data` needs at most 6 + 3·65536 interactions, never raises, and
 returns `None` or an object with `length ≤ capacity` whose octets are blocks 1.. of the data area -/
 theorem readNdef3_safe {t : Tag} (hT : TagBytes t) (s : S3) (hI : I3 s) :
     (readNdef3 t s).2.w.n ≤ s.w.n + 6 + 3 * 65536 ∧
-    ((readNdef3 t s).1 = .ok none ∨ ∃ d, (readNdef3 t s).1 = .ok (some d) ∧ SafeNdef d ∧ d.lo = 16) := by
+    ((readNdef3 t s).1 = .ok none ∨ ∃ d, (readNdef3 t s).1 = .ok (some d) ∧ SafeNdef d ∧ d.lo = 16) ∧
+    I3 (readNdef3 t s).2 ∧ ((readNdef3 t s).2.sys = s.sys ∨ (readNdef3 t s).2.sys = 0x12FC) := by
   unfold readNdef3
   -- polling
   have hp : ∀ (x : Py Unit × S3), x = (if s.sys ≠ 0x12FC then polling3 t s else (.ok (), s)) →
-      x.2.w.n ≤ s.w.n + 3 ∧ (∀ e, x.1 = .error e → isTagCmd e = true) ∧ (x.1 = .ok () → I3 x.2) := by
+      x.2.w.n ≤ s.w.n + 3 ∧ (∀ e, x.1 = .error e → isTagCmd e = true) ∧ I3 x.2 ∧
+      (x.2.sys = s.sys ∨ x.2.sys = 0x12FC) := by
     intro x hx
     subst hx
     split
-    · unfold polling3
-      have hs := sendCmd3_spec hT 0 [0x12, 0xFC, 0, 0] false s (by simp) (by omega)
-      rcases hr : sendCmd3 t 0 [0x12, 0xFC, 0, 0] false s with ⟨r, s'⟩
-      rw [hr] at hs
-      simp only at hs
-      cases r with
-      | error e => exact ⟨hs.1, by intro e' he; simp at he; subst he; exact hs.2.2.2.2.1 e rfl, by simp⟩
-      | ok d =>
-        simp only
-        split
-        · exact ⟨hs.1, by intro e' he; simp at he; subst he; rfl, by simp⟩
-        · rename_i hl
-          have hl' : d.length = 16 := by simpa using hl
-          exact ⟨hs.1, by simp, by intro _; unfold I3; simp; omega⟩
-    · exact ⟨by simp, by simp, fun _ => hI⟩
+    · have := polling3_spec hT s
+      refine ⟨this.1, this.2.1, ?_, ?_⟩
+      · by_cases hok : (polling3 t s).1 = .ok ()
+        · exact this.2.2.1 hok
+        · obtain ⟨h1, h2, -⟩ := this.2.2.2.1 hok
+          unfold I3; rw [h1, h2]; exact hI
+      · by_cases hok : (polling3 t s).1 = .ok ()
+        · exact Or.inr (this.2.2.2.2 hok)
+        · exact Or.inl (this.2.2.2.1 hok).2.2
+    · exact ⟨by simp, by simp, hI, Or.inl rfl⟩
   generalize (if s.sys ≠ 0x12FC then polling3 t s else (Except.ok (), s) : Py Unit × S3) = x at hp
   have hp := hp x rfl
   obtain ⟨r, s1⟩ := x
@@ -174,18 +239,19 @@ theorem readNdef3_safe {t : Tag} (hT : TagBytes t) (s : S3) (hI : I3 s) :
   cases r with
   | error e =>
     simp only [hp.2.1 e rfl, if_true]
-    exact ⟨by omega, by simp⟩
+    exact ⟨by omega, by simp, hp.2.2.1, hp.2.2.2⟩
   | ok u =>
     simp only
-    have hI1 := hp.2.2 rfl
+    have hI1 := hp.2.2.1
     have hr := read3_spec hT [0] s1 hI1 (by simp) (by simp)
     rcases hq : read3 t [0] s1 with ⟨r2, s2⟩
     rw [hq] at hr
     simp only at hr
+    have hsys2 : s2.sys = s.sys ∨ s2.sys = 0x12FC := by rw [hr.2.2.1]; exact hp.2.2.2
     cases r2 with
     | error e =>
       simp only [hr.2.2.2.1 e rfl, if_true]
-      exact ⟨by omega, by simp⟩
+      exact ⟨by omega, by simp, hr.2.1, hsys2⟩
     | ok d =>
       simp only
       have hd := hr.2.2.2.2 d rfl
@@ -196,19 +262,20 @@ theorem readNdef3_safe {t : Tag} (hT : TagBytes t) (s : S3) (hI : I3 s) :
         have h3 : a3 < 256 := hb a3 (by simp)
         have h4 : a4 < 256 := hb a4 (by simp)
         have hn2 : s2.w.n ≤ s.w.n + 6 := by have := hp.1; have := hr.1; omega
+        have hI2 := hr.2.1
         clear hb hd
         by_cases hsum : a0 + a1 + a2 + a3 + a4 + a5 + a6 + a7 + a8 + a9 + a10 + a11 + a12 + a13 ≠ c0 * 256 + c1
         · simp only [parseAttr, if_pos hsum]
-          exact ⟨by omega, by simp⟩
+          exact ⟨by omega, by simp, hI2, hsys2⟩
         · simp only [parseAttr, if_neg hsum]
           clear hsum
           split
-          · exact ⟨by simp only; omega, by simp⟩
+          · exact ⟨by simp only; omega, by simp, hI2, hsys2⟩
           · split
-            · exact ⟨by simp only; omega, by simp⟩
+            · exact ⟨by simp only; omega, by simp, hI2, hsys2⟩
             · rename_i hln
               split
-              · exact ⟨by simp only; omega, by simp⟩
+              · exact ⟨by simp only; omega, by simp, hI2, hsys2⟩
               · rename_i hnbr
                 have hlast : 1 + ((a11 * 256 + a12) * 256 + a13 + 15) / 16 ≤ 65536 := by omega
                 have hB := blockLoop3_spec hT (1 + ((a11 * 256 + a12) * 256 + a13 + 15) / 16) (min a1 15) hlast
@@ -217,11 +284,13 @@ theorem readNdef3_safe {t : Tag} (hT : TagBytes t) (s : S3) (hI : I3 s) :
                     (1 + ((a11 * 256 + a12) * 256 + a13 + 15) / 16) 1 [] s2 with ⟨r3, s3⟩
                 rw [hq3] at hB
                 simp only at hB
-                rcases hB.2 with h | ⟨data, h⟩
-                · subst h; exact ⟨by simp only; omega, by simp⟩
+                have hsys3 : s3.sys = s.sys ∨ s3.sys = 0x12FC := by rw [hB.2.2.1]; exact hsys2
+                have hI3' := hB.2.1
+                rcases hB.2.2.2 with h | ⟨data, h⟩
+                · subst h; exact ⟨by simp only; omega, by simp, hI3', hsys3⟩
                 · subst h
                   simp only
-                  refine ⟨by omega, Or.inr ⟨_, rfl, ⟨?_, rfl, by simp, ?_⟩, rfl⟩⟩
+                  refine ⟨by omega, Or.inr ⟨_, rfl, ⟨?_, rfl, by simp, ?_⟩, rfl⟩, hI3', hsys3⟩
                   · simp only [List.length_take]; omega
                   · intro a ha
                     simp only [List.mem_range'_1, List.length_take] at ha
